@@ -31,9 +31,17 @@ def _child_orders(v):
 
 
 class Orders:
-    def __init__(self, cap=20000, model=None):
+    def __init__(self, cap=20000, model=None, work_cap=400000):
         self.cap = cap
+        self.work_cap = work_cap
+        self.work = 0
         self.model = model or sem.Model()
+
+    def tick(self, n=1):
+        """Bound the total work of one results() call (the sets can be small while their construction is not)."""
+        self.work += n
+        if self.work > self.work_cap:
+            raise TooBig()
 
     # -- selector results for one node: set of tuples of (loc, value)
     def selector_options(self, s, loc, v, root):
@@ -60,6 +68,7 @@ class Orders:
             nxt = set()
             for a in acc:
                 for b in o:
+                    self.tick()
                     nxt.add(a + b)
                     if len(nxt) > self.cap:
                         raise TooBig()
@@ -91,6 +100,7 @@ class Orders:
         out = []
 
         def rec(done, done_set, remaining):
+            self.tick()
             if not remaining:
                 out.append(tuple(done))
                 if len(out) > self.cap:
@@ -127,6 +137,7 @@ class Orders:
         seen = set()
 
         def run(queue, emitted):
+            self.tick()
             key = (queue and tuple(l for l, _ in queue), emitted)
             if key in seen:
                 return
@@ -161,6 +172,7 @@ class Orders:
     # -- whole queries
     def results(self, q, doc, visits="permitted"):
         """Set of tuples of locations."""
+        self.work = 0
         seqs = {(_Node((), doc),)}
         for kind, sels in q[2]:
             nxt = set()
